@@ -423,3 +423,23 @@ PROPS["C09"]["stages"] = PROPS["C09"]["stages"] + [_CFG_STAGE]
 PROPS["C12"]["stages"] = PROPS["C12"]["stages"] + [_CFG_STAGE]
 PROPS["C09"]["rule"] += "; the plan parsed from config files (stage c14config): every stage's tick interval against the model's"
 PROPS["C12"]["rule"] += "; the plan parsed from config files (stage c14config): a distributed stage is ticked at the distribution's sub-tick interval"
+
+# what the twelfth seed series added: in through the outermost door, and the failure paths
+_SURFACE = {
+    "C02": "scripted-rate runs that hold the ticking goroutine up for more than two periods",
+    "C03": "every third identifier's invocation ends as a failed one (Fail, FailNow, failed require, panic)",
+    "C05": "stage c05window: what a trigger finds left on its context for trigger durations absent, below, inside the guard, at and beyond max-duration (predicate window_ok)",
+    "C06": "stage c06many: combined scenarios whose parts register 50-2000 setup cleanups each: all once, exactly reversed",
+    "C08": "the generous earlier execution on the very same instance and command",
+    "C10": "ramps built through the run command's flag set next to a --max-duration shorter than, equal to and longer than --ramp-duration",
+    "C11": "profiles built through the gaussian command's flag set, --peak 0s included",
+    "C13": "stage c13triggers: constant, ramp and staged through their Calculate...Rate functions, exact differential with one mirrored draw per tick",
+    "C14": "run file / chart file with a directory, '.', a missing path, an empty file or no argument",
+    "C15": "stages with an entry the OS refuses to set next to eight valid parameters",
+    "C16": "scenario functions returning no iteration function; per-run plan counts against result and metric",
+    "C17": "measured iterations with a slow cleanup of their own, panicking bodies included",
+    "C18": "stage c18inrun: no goroutine of the runner after Run.Do, the context cancelled before the run, during setup, in an iteration, by a setup cleanup",
+    "C20": "stage c20interrupted: a combined iteration in flight when the run is cancelled",
+}
+for _pid, _txt in _SURFACE.items():
+    PROPS[_pid]["rule"] = PROPS[_pid]["rule"] + "; surface and failure paths: " + _txt
